@@ -3,6 +3,7 @@
 (`id:seq:udp4:udp6:mapped:size:passesFilter:sig`), requests are referred to by their number. -/
 import Driver.Common
 import Discv5Model.Model.Service
+import Discv5Model.Model.Connectivity
 namespace Discv5.Driver
 namespace SvcD
 open Discv5.KB Discv5.Svc
@@ -10,6 +11,8 @@ open Discv5.KB Discv5.Svc
 structure SvcInst where
   name : String
   svc : Svc
+  /-- the connectivity state (`Model/Connectivity.lean`); the `Instant` clock stands still in a case -/
+  conn : Conn.Conn := { duration := none }
   /-- the application is not reading its event stream: events are not part of the replies -/
   evPaused : Bool := false
   /-- every request ever emitted (requests are looked up here once they are no longer active) -/
@@ -163,6 +166,18 @@ def oracleOf (s : Svc) (sfx : List String) : Oracle :=
     else if tok == "nc=1" then { o with countable := false }
     else o) {}
 
+/-- Renders the reply of a step of instance `i` that led to `s2` / `conn2` with outputs `o1` (the
+step proper, run on `s1`) and `o2` (the suffix). -/
+def finishOn (st : ServiceSt) (i : SvcInst) (s1 s2 : Svc) (conn2 : Conn.Conn) (o1 o2 : List Out)
+    (extra : Option String) : ServiceSt × String :=
+  let outs := o1 ++ o2
+  let (items, bans) := showOuts outs
+  let items := if i.evPaused then items.filter (fun s => !s.startsWith "ev:") else items
+  let items := match extra with | some e => e :: items | none => items
+  let i' := { i with svc := s2, conn := conn2, hist := i.hist ++ histOf o1 s1 ++ histOf o2 s2 }
+  let st' := { setInst st i' with bans := sortDedupStr (st.bans ++ bans) }
+  (st', s!"{if items.isEmpty then "-" else " ".intercalate items} | T={digest false s2.table}")
+
 /-- Runs one input on instance `x` (plus the suffix), renders the reply. -/
 def runOn (st : ServiceSt) (x : String) (inp : Svc → Oracle → Svc × List Out) (sfx : List String)
     (extra : Option String) : ServiceSt × String :=
@@ -171,13 +186,39 @@ def runOn (st : ServiceSt) (x : String) (inp : Svc → Oracle → Svc × List Ou
   | some i =>
     let (s1, o1) := inp i.svc (oracleOf i.svc sfx)
     let (s2, o2) := applySuffix s1 sfx
-    let outs := o1 ++ o2
-    let (items, bans) := showOuts outs
-    let items := if i.evPaused then items.filter (fun s => !s.startsWith "ev:") else items
-    let items := match extra with | some e => e :: items | none => items
-    let i' := { i with svc := s2, hist := i.hist ++ histOf o1 s1 ++ histOf o2 s2 }
-    let st' := { setInst st i' with bans := sortDedupStr (st.bans ++ bans) }
-    (st', s!"{if items.isEmpty then "-" else " ".intercalate items} | T={digest false s2.table}")
+    finishOn st i s1 s2 i.conn o1 o2 extra
+
+/-- The `t=` token of a resolved op: the tokio clock (ms) when the op was handed to the service. -/
+def tokOf (sfx : List String) : Nat :=
+  match sfx.find? (·.startsWith "t=") with
+  | some t => nat! (t.drop 2).toString
+  | none => 0
+
+/-- Runs one service input through `KSvc.step` (service + connectivity state): sessions and PONGs. -/
+def runK (st : ServiceSt) (x : String) (inp : Svc.Input) (sfx : List String) : ServiceSt × String :=
+  match getInst st x with
+  | none => (st, "noop")
+  | some i =>
+    let (k1, o1) := ({ svc := i.svc, conn := i.conn } : Conn.KSvc).step (tokOf sfx) 0 (.svc (oracleOf i.svc sfx) inp)
+    let (s2, o2) := applySuffix k1.svc sfx
+    finishOn st i k1.svc s2 k1.conn o1 o2 none
+
+/-- The earliest deadline of a connectivity timer that is due by `tEnd`. -/
+def nextDue (c : Conn.Conn) (tEnd : Nat) : Option Nat :=
+  let ds := ([c.wait4, c.wait6].filterMap id).filter (· ≤ tEnd)
+  ds.foldl (fun (m : Option Nat) d => match m with | none => some d | some e => some (min e d)) none
+
+/-- Idle until `tEnd`: the connectivity timers that run out fire in the order of their deadlines. -/
+def idleK (k : Conn.KSvc) (tEnd sz sg : Nat) : Conn.KSvc × List Out :=
+  match nextDue k.conn tEnd with
+  | none => (k, [])
+  | some d1 =>
+    let (k1, o1) := k.step d1 0 (.timer sz sg)
+    match nextDue k1.conn tEnd with
+    | none => (k1, o1)
+    | some d2 =>
+      let (k2, o2) := k1.step d2 0 (.timer sz sg)
+      (k2, o1 ++ o2)
 
 def parseMode (s : String) : IpMode := if s == "ip6" then .ip6 else if s == "dual" then .dual else .ip4
 
@@ -192,16 +233,31 @@ def reqNo (s : String) : Nat := nat! (s.drop 1).toString
 def serviceStep (st : ServiceSt) (toks : List String) : ServiceSt × String :=
   match toks with
   | ["snop"] => (st, "noop")
-  | ["snew", x, rec, mode, maxn, maxin, enrupd] =>
+  | "snew" :: x :: rec :: mode :: maxn :: maxin :: enrupd :: rest =>
     match parseRec rec with
     | none => (st, "noop")
     | some r =>
       let cfg : Svc.Cfg := { ipMode := parseMode mode, maxNodesResponse := nat! maxn, enrUpdate := enrupd == "1",
                              kb := kbCfg (nat! maxin) 60000 }
-      (setInst st { name := x, svc := Svc.init cfg r }, "ok")
+      -- `an=MS|-`: the listen duration of the built configuration; scripts written before the
+      -- connectivity state was modelled do not say: the default of `ConfigBuilder`
+      let an : Option Nat := match rest.find? (·.startsWith "an=") with
+        | some t => optNat (t.drop 3).toString
+        | none => Conn.autoNatOf (enrupd == "1") (some (Consts.AUTO_NAT_LISTEN_DEFAULT_SECS * 1000))
+      (setInst st { name := x, svc := Svc.init cfg r, conn := Conn.Conn.new an 0 }, "ok")
   | ["spermit", _] => (st, "ok")   -- the permit list concerns the packet filter only
   | ["sevresub", _] => (st, "ok")  -- a new event stream: what is observed does not change
   | ["ssleep", _] => (st, "ok")
+  | "sidle" :: x :: sfx =>
+    match getInst st x with
+    | none => (st, "noop")
+    | some i =>
+      let newRec := (sfx.find? (·.startsWith "local=")).bind (fun t => parseRec (t.drop 6).toString)
+      let (sz, sg) := match newRec with
+        | some r => (r.size, r.sig)
+        | none => (i.svc.localRec.size, i.svc.localRec.sig)
+      let (k1, o1) := idleK { svc := i.svc, conn := i.conn } (tokOf sfx) sz sg
+      finishOn st i k1.svc k1.svc k1.conn o1 [] none
   | ["sway", x, peer, addr] => runOn st x (fun s o => s.step o (.whoAreYou (sKey peer) (parseAddr addr))) [] none
   | ["sevpause", x] =>
     match getInst st x with
@@ -219,7 +275,7 @@ def serviceStep (st : ServiceSt) (toks : List String) : ServiceSt × String :=
     | _, _ => (st, "noop")
   | "sest" :: x :: rec :: addr :: dir :: sfx =>
     match parseRec rec with
-    | some r => runOn st x (fun s o => s.step o (.established r (parseAddr addr) (dir == "i"))) sfx none
+    | some r => runK st x (.established r (parseAddr addr) (dir == "i")) sfx
     | none => (st, "noop")
   | ["srm", x, id] =>
     match getInst st x with
@@ -236,8 +292,7 @@ def serviceStep (st : ServiceSt) (toks : List String) : ServiceSt × String :=
     runOn st x (fun s o => s.step o (.response (sKey peer) (parseAddr addr) (reqNo rk)
       (.nodes (nat! total) (parseRecs recs)))) sfx none
   | "sresp" :: x :: rk :: peer :: addr :: "pong" :: seq :: obs :: sfx =>
-    runOn st x (fun s o => s.step o (.response (sKey peer) (parseAddr addr) (reqNo rk)
-      (.pong (nat! seq) (parseAddr obs)))) sfx none
+    runK st x (.response (sKey peer) (parseAddr addr) (reqNo rk) (.pong (nat! seq) (parseAddr obs))) sfx
   | "sresp" :: x :: rk :: peer :: addr :: "talk" :: payload :: sfx =>
     runOn st x (fun s o => s.step o (.response (sKey peer) (parseAddr addr) (reqNo rk)
       (.talk (bytesOf payload)))) sfx none
